@@ -291,6 +291,29 @@ func runC18(c *Ctx) {
 			c.Check(len(qbad) == 0 && firsts > 0, "C18-URL", "(*valid.VUrl).validate", "first-question-mark", urlPos, "query cut at the first '?'", uniqJoin(append(qbad, map[bool]string{true: "", false: "no search for '?' found"}[firsts > 0]), 2))
 		}
 		c.Check(len(decodeFirst) == 0, "C18-URL", "(*valid.VUrl).validate", "decode-after-split", urlPos, "decoding does not precede splitting", uniqJoin(decodeFirst, 1))
+		// Which characters are looked for in text that has ALREADY been percent-decoded: each of them is
+		// a delimiter whose encoded form inside a value is taken for the delimiter. '?', '&' and '=' are
+		// the (recorded) consequence of whole-URL decoding; any further one is a new way for a value to be
+		// truncated and for the parameters behind it to be lost, and is reported on its own.
+		if ufn := p.Method("valid", "VUrl", "validate"); ufn != nil {
+			var extra []string
+			pos := urlPos
+			dl := decodedDelimiters(p, ufn)
+			var ds []string
+			for d := range dl {
+				ds = append(ds, d)
+			}
+			sort.Strings(ds)
+			for _, d := range ds {
+				if d == "?" || d == "&" || d == "=" {
+					continue
+				}
+				pos = dl[d]
+				extra = append(extra, fmt.Sprintf("%s: the percent-decoded text is searched for %q: a value that contains this character in encoded form (%s) is cut there and every parameter behind it is lost or misjudged", p.Pos(dl[d]), d, encodedForm(d)))
+			}
+			c.Sites++
+			c.Check(len(extra) == 0, "C18-URL", "(*valid.VUrl).validate", "decoded-delimiters", pos, fmt.Sprintf("no delimiter other than '?', '&', '=' is looked for in decoded text (searched: %s)", strings.Join(ds, " ")), uniqJoin(extra, 3))
+		}
 	}
 	// --- C18-IFACE (same construct as C03-IFACE, judged for this property)
 	c.Rule("C18-IFACE", "map elements of interface type are unwrapped before they reach the shared rule functions, so map[string]interface{} carries a scalar like map[string]T does", 1)
@@ -744,4 +767,198 @@ func inductionPhi(fn *ssa.Function, blk, reg string) bool {
 		}
 	}
 	return false
+}
+
+// decodedDelimiters: the delimiters that (*VUrl).validate (and the repository helpers it hands the text
+// to, two levels deep) looks for in text that derives from the result of url.QueryUnescape /
+// url.PathUnescape. Each of them is a character whose percent-encoded form inside a value is mistaken for
+// the delimiter itself. Returned: delimiter text -> position of one search site.
+func decodedDelimiters(p *Prog, fn *ssa.Function) map[string]token.Pos {
+	out := map[string]token.Pos{}
+	var scan func(fn *ssa.Function, seed map[ssa.Value]bool, depth int)
+	scan = func(fn *ssa.Function, seed map[ssa.Value]bool, depth int) {
+		if fn == nil || fn.Blocks == nil || depth > 2 {
+			return
+		}
+		taint := map[ssa.Value]bool{}
+		for v := range seed {
+			taint[v] = true
+		}
+		tainted := func(v ssa.Value) bool { return v != nil && taint[v] }
+		searchFns := map[string]bool{"Index": true, "IndexByte": true, "IndexRune": true, "IndexAny": true, "LastIndex": true, "LastIndexByte": true, "LastIndexAny": true,
+			"Split": true, "SplitN": true, "SplitAfter": true, "SplitAfterN": true, "Cut": true, "FieldsFunc": false}
+		carryFns := map[string]bool{"Split": true, "SplitN": true, "SplitAfter": true, "SplitAfterN": true, "Cut": true, "Fields": true, "TrimSpace": true, "Trim": true, "TrimLeft": true, "TrimRight": true,
+			"TrimPrefix": true, "TrimSuffix": true, "ToLower": true, "ToUpper": true, "Clone": true, "Replace": true, "ReplaceAll": true}
+		for changed, rounds := true, 0; changed && rounds < 12; rounds++ {
+			changed = false
+			mark := func(v ssa.Value) {
+				if v != nil && !taint[v] {
+					taint[v] = true
+					changed = true
+				}
+			}
+			for _, b := range fn.Blocks {
+				for _, ins := range b.Instrs {
+					switch x := ins.(type) {
+					case *ssa.Call:
+						nm := calleeName(&x.Call)
+						if nm == "net/url.QueryUnescape" || nm == "net/url.PathUnescape" {
+							mark(x)
+							continue
+						}
+						args := callArgs(&x.Call)
+						if (strings.HasPrefix(nm, "strings.") || strings.HasPrefix(nm, "bytes.")) && len(args) > 0 && tainted(args[0]) {
+							if carryFns[nm[strings.Index(nm, ".")+1:]] {
+								mark(x)
+							}
+						}
+					case *ssa.Extract:
+						if tainted(x.Tuple) && x.Index == 0 {
+							mark(x)
+						}
+						if c, ok := x.Tuple.(*ssa.Call); ok && tainted(x.Tuple) && strings.HasSuffix(calleeName(&c.Call), ".Cut") && x.Index <= 1 {
+							mark(x)
+						}
+						if nx, ok := x.Tuple.(*ssa.Next); ok && tainted(nx) {
+							mark(x)
+						}
+					case *ssa.Slice:
+						if tainted(x.X) {
+							mark(x)
+						}
+					case *ssa.Phi:
+						for _, e := range x.Edges {
+							if tainted(e) {
+								mark(x)
+							}
+						}
+					case *ssa.Index:
+						if tainted(x.X) {
+							mark(x)
+						}
+					case *ssa.IndexAddr:
+						if tainted(x.X) {
+							mark(x)
+						}
+					case *ssa.Lookup:
+						if tainted(x.X) {
+							mark(x)
+						}
+					case *ssa.UnOp:
+						if x.Op == token.MUL && tainted(x.X) {
+							mark(x)
+						}
+					case *ssa.Store:
+						if tainted(x.Val) {
+							mark(x.Addr)
+						}
+					case *ssa.Range:
+						if tainted(x.X) {
+							mark(x)
+						}
+					case *ssa.Next:
+						if tainted(x.Iter) {
+							mark(x)
+						}
+					case *ssa.Convert:
+						if tainted(x.X) {
+							mark(x)
+						}
+					case *ssa.ChangeType:
+						if tainted(x.X) {
+							mark(x)
+						}
+					case *ssa.BinOp:
+						if x.Op == token.ADD && (tainted(x.X) || tainted(x.Y)) {
+							mark(x)
+						}
+					}
+				}
+			}
+		}
+		for _, b := range fn.Blocks {
+			for _, ins := range b.Instrs {
+				switch x := ins.(type) {
+				case *ssa.Call:
+					nm := calleeName(&x.Call)
+					args := callArgs(&x.Call)
+					if (strings.HasPrefix(nm, "strings.") || strings.HasPrefix(nm, "bytes.")) && len(args) >= 2 && tainted(args[0]) && searchFns[nm[strings.Index(nm, ".")+1:]] {
+						d := ""
+						if s, ok := constString(args[1]); ok {
+							d = s
+						} else if k, ok := constInt(args[1]); ok {
+							d = string(rune(k))
+						} else {
+							d = "<non-constant>"
+						}
+						if _, had := out[d]; !had {
+							out[d] = x.Pos()
+						}
+					}
+					if (nm == "net/url.Parse" || nm == "net/url.ParseQuery" || nm == "net/url.ParseRequestURI") && len(args) >= 1 && tainted(args[0]) {
+						if _, had := out["<"+nm+">"]; !had {
+							out["<"+nm+">"] = x.Pos()
+						}
+					}
+					// a repository helper that receives decoded text
+					if cal := staticCallee(&x.Call); cal != nil && cal.Blocks != nil && cal.Pkg != nil && strings.HasPrefix(cal.Pkg.Pkg.Path(), ModPath) {
+						sub := map[ssa.Value]bool{}
+						for i, a := range args {
+							if tainted(a) && i < len(cal.Params) {
+								sub[cal.Params[i]] = true
+							}
+						}
+						if len(sub) > 0 {
+							scan(cal, sub, depth+1)
+						}
+					}
+				case *ssa.BinOp:
+					// a hand-written scanner: one byte of the decoded text compared with a constant
+					if x.Op != token.EQL && x.Op != token.NEQ {
+						continue
+					}
+					for _, pr := range [][2]ssa.Value{{x.X, x.Y}, {x.Y, x.X}} {
+						k, ok := constInt(pr[1])
+						if !ok {
+							continue
+						}
+						v := pr[0]
+						if cv, ok := v.(*ssa.Convert); ok {
+							v = cv.X
+						}
+						isElem := false
+						switch e := v.(type) {
+						case *ssa.Index:
+							isElem = tainted(e.X)
+						case *ssa.Lookup:
+							isElem = tainted(e.X)
+						case *ssa.UnOp:
+							if ia, ok := e.X.(*ssa.IndexAddr); ok && e.Op == token.MUL {
+								isElem = tainted(ia.X)
+							}
+						case *ssa.Extract: // rune / byte of a range over the text
+							if nx, ok := e.Tuple.(*ssa.Next); ok && e.Index == 2 {
+								isElem = tainted(nx)
+							}
+						}
+						if isElem {
+							d := string(rune(k))
+							if _, had := out[d]; !had {
+								out[d] = x.Pos()
+							}
+						}
+					}
+				}
+			}
+		}
+	}
+	scan(fn, nil, 0)
+	return out
+}
+
+func encodedForm(d string) string {
+	if len(d) == 1 {
+		return fmt.Sprintf("%%%02X", d[0])
+	}
+	return "its %XX form"
 }
